@@ -164,6 +164,17 @@ register("C13",
     "Trusted: the interpreter; logging macros abstracted away; clang CFG.",
     "symbolic interpretation (rational identities) + CFG argmin / coverage rules",
     "DESIGN.md §5 C13")
+register("C19",
+    "Weak but exact coverage clauses of the decompositions: in dialect::peel every round turns all current leaves into stems, severs the "
+    "same leaves, adds every stem (dropping only the mirror stem of a double-centre tree), takes the next leaves before re-testing, and "
+    "afterwards turns every connected component of the workspace into exactly one Tree; one stem per leaf to the other end of its edge; "
+    "the stem's root->leaf edge is added on every path; identifyRootNode is an argmax scan; NodeBuckets moves are erase-iff-insert and "
+    "every former neighbour drops one bucket; Graph::getConnComps erases a node from `remaining` on every path on which it is placed, "
+    "adds every reached edge once and records every component. Does not decide acyclicity, degree conditions of the core, symmetric "
+    "tree layout or planarisation.",
+    "Trusted: clang AST/CFG; normal forms of call arguments.",
+    "CFG coverage / must-pass-through rules and guarded-by entailment over the decomposition code",
+    "DESIGN.md §5 C19")
 register("C14",
     "Weak but exact: along every path of doHOLA the padding applied to the caller's nodes sums to zero for core nodes and for non-root tree "
     "nodes (abstract execution over polynomial padding sums), padding primitives add exactly (dw,dh) to every intended node, every routing "
@@ -173,9 +184,8 @@ register("C14",
     "abstract interpretation of doHOLA over an additive padding domain + who-writes / constructor-argument rules",
     "DESIGN.md §5 C14")
 for _p, _r in {
- "C19": "partition / planarity of decompositions are invariants of run-time graph data",
 }.items():
     na(_p, _r)
-for _p in ["C01","C02","C03","C04","C05","C06","C07","C08","C09","C10","C11","C12","C13","C14","C16","C17","C18","C20"]:
+for _p in ["C01","C02","C03","C04","C05","C06","C07","C08","C09","C10","C11","C12","C13","C14","C16","C17","C18","C19","C20"]:
     if _p not in CHECKS:
         na(_p, "static check designed (DESIGN.md §5) but not yet registered in this commit")
